@@ -12,7 +12,11 @@ def run(tier, seed, boost=False, facts=None):
     n = 300 if tier == 'quick' else 5000
     if boost:
         n *= 3
-    return histprop.run_property('C13', gens2.gen_c13, n, seed + int('C13'[1:]), RULE)
+    def gen(rng):
+        if rng.random() < 0.2:
+            return gens2.gen_geom(rng, wide_only=True)
+        return gens2.gen_c13(rng)
+    return histprop.run_property('C13', gen, n, seed + int('C13'[1:]), RULE)
 
 
 def replay(payload):
